@@ -19,7 +19,8 @@ RULE = (
     "connectivity; distinct = distinct (count, class, connectivity, ensurelink, resulting adjacency)."
 )
 
-CLASSES = ["DirectedEdge", "UnDirectedEdge", "DSub", "OtherLink"]
+_EDGE = {**zoo.EDGE_CLASSES, **zoo.SPEC_ONLY_EDGE_CLASSES}
+CLASSES = ["DirectedEdge", "UnDirectedEdge", "DSub", "OtherLink", "AbcEdge", "AbcUEdge"]
 CONNS = [None, 0, 1e-9, 0.1, 0.5, 0.999, 1,
          # extreme but legal floats in [0, 1]: subnormals, the smallest normal, 1 - ulp, and float spellings of 0 / 1
          5e-324, 1e-310, 2.2250738585072014e-308, 1e-300, 0.9999999999999999, 0.0, 1.0]
@@ -149,7 +150,7 @@ def adjacency(uni):
 
 
 def judge(ctx, count, cname, conn, ensure, how, case):
-    cls = zoo.EDGE_CLASSES[cname]
+    cls = _EDGE[cname]
     kwargs = dict(count=count, edge=cls, ensurelink=ensure)
     if conn is not None:
         kwargs["connectivity"] = conn
@@ -313,7 +314,7 @@ def forked_child_reproducibility(ctx, count, cname, ensure, seed):
     case = {"count": count, "cls": cname, "ensure": ensure, "seed": seed, "forked": True, "conn": None, "stream": None}
     if threading.active_count() != 1:
         return  # (never the case in these runs: forking a multi-threaded interpreter is not what is being judged)
-    cls = zoo.EDGE_CLASSES[cname]
+    cls = _EDGE[cname]
     state = random.getstate()
     try:
         random.seed(seed)
